@@ -1,4 +1,5 @@
 import CE.Cbe.Minimal
+import CE.Cbe.Reencode
 import CE.Canon
 /-
   C22 — CBE encoding is minimal and canonical.
@@ -8,9 +9,14 @@ import CE.Canon
   type table independently of the encoder's `switch`) and no offered encoding is shorter;
   and the integer re-encoding idempotence: what the decoder emits for an encoder-written
   integer encodes to the same bytes again.
-  `…_partial`: floats (narrowest exact width), short array/string headers and whole-stream
-  idempotence are decided on every run by the driver's independent size oracle (CBE.MINLEN)
-  and by decode→encode byte identity on the implementation; their theorems are not yet written.
+  `structural_encoding_is_a_fixed_point`: for EVERY document made of structural events
+  (containers, Booleans, null, integers of all widths and forms, identifiers, UIDs, strings and
+  resource identifiers in short and chunk-header form, comments, padding), decoding the encoder's
+  bytes and encoding the delivered events again yields exactly the same bytes: the encoding is
+  canonical (CE/Cbe/Reencode.lean, induction over the stream).
+  `…_partial`: floats (narrowest exact width), typed-array headers and the same fixed point for
+  floats / decimals / typed arrays are decided on every run by the driver's independent size
+  oracle (CBE.MINLEN) and by decode→encode byte identity on the implementation.
 -/
 namespace CE.Props.C22
 open CE CE.Cbe
@@ -69,6 +75,12 @@ theorem negInt_reencode (n : Nat) (h : n < 2 ^ 64) (st : EncSt) :
       have hmod : n % 18446744073709551616 = n := by omega
       simp [h0, h1, encodeEv, encInt, hmod]
     · simp [h0, h1]
+
+/-- canonical form: decode-then-encode reproduces the encoder's bytes exactly -/
+theorem structural_encoding_is_a_fixed_point (evs : List Ev) (h : evs.all simple = true) :
+    let doc := Ev.beginDoc :: Ev.version 0 :: (evs ++ [Ev.endDoc])
+    ∃ back, decode (encode doc).1 = (back, none) ∧ encode back = encode doc :=
+  canonical_fixed_point evs h
 
 example : (encPosInt 100).length = 1 ∧ (encPosInt 101).length = 2 ∧ (encPosInt (2 ^ 48)).length = 9 := by
   decide
